@@ -35,6 +35,9 @@ struct Case {
 struct Spec {
   std::string harness;                                     // executable name, for replay files
   std::function<void(const Args &, std::vector<Case> &)> build; // enumerate the cases of this mode/tier
+  // lazy alternative for large grids: number of cases and the i-th case
+  std::function<size_t(const Args &)> lazy_count;
+  std::function<Case(size_t)> lazy_get;
   std::function<std::string(const Case &)> run;            // "" = holds; otherwise "key|description"
   // classification of an abnormal end of a case (crash, ASan, deadlock, timeout): key|description;
   // return "" to accept it (never the default)
@@ -57,6 +60,8 @@ inline int main_loop(int argc, char **argv, Spec &sp) {
         got = true;
         if (cr.died) res[k] = sp.on_death ? sp.on_death(c, cr) : ("abnormal|" + describe_death(cr));
         else res[k] = cr.obs;
+        if (!res[k].empty() && res[k][0] == '#') { size_t e = res[k].find('#', 1); res[k] = e == std::string::npos ? "" : res[k].substr(e + 1); }
+        if (!res[k].empty() && res[k][0] == '+') res[k].clear();
       }, sp.alarm_s * 4);
       if (!got) res[k] = "internal|no result";
     }
@@ -65,23 +70,29 @@ inline int main_loop(int argc, char **argv, Spec &sp) {
     return res[0].empty() ? 0 : 1;
   }
   std::vector<Case> all;
-  sp.build(a, all);
+  size_t total = 0;
+  if (sp.lazy_get) total = sp.lazy_count(a);
+  else { sp.build(a, all); total = all.size(); }
   int shard = (int)a.num("shard", 0), nshards = (int)a.num("nshards", 1);
-  std::vector<const Case *> mine;
-  for (size_t i = 0; i < all.size(); i++)
-    if ((long)(i % nshards) == shard) mine.push_back(&all[i]);
+  std::vector<size_t> mine_idx;
+  for (size_t i = 0; i < total; i++)
+    if ((long)(i % nshards) == shard) mine_idx.push_back(i);
+  auto getcase = [&](long k) -> Case { return sp.lazy_get ? sp.lazy_get(mine_idx[k]) : all[mine_idx[k]]; };
+  struct MineView { std::vector<size_t> *v; size_t size() const { return v->size(); } } mine{&mine_idx};
   std::set<std::string> classes;
   std::map<std::string, long> outcomes;
   std::map<std::string, int> reported;
   long evals = 0, nviol = 0;
   size_t sample_every = mine.size() / 3 + 1;
   auto sink = [&](long k, const CaseResult &cr) {
-    const Case &c = *mine[k];
-    evals++;
+    Case c = getcase(k);
+    long sub = 1;
     classes.insert(c.cls);
     std::string v;
     if (cr.died) v = sp.on_death ? sp.on_death(c, cr) : ("abnormal:" + describe_death(cr) + "|case ended abnormally: " + describe_death(cr));
     else v = cr.obs;
+    if (!v.empty() && v[0] == '#') { size_t e = v.find('#', 1); sub = atol(v.c_str() + 1); v = e == std::string::npos ? "" : v.substr(e + 1); } // "#n#rest": n evaluations inside this case
+    evals += sub;
     std::string okinfo;
     if (!v.empty() && v[0] == '+') { okinfo = v.substr(1); v.clear(); } // "+text": holds, with an annotation for samples/outcome histogram
     if (v.empty()) {
@@ -96,9 +107,9 @@ inline int main_loop(int argc, char **argv, Spec &sp) {
     if (reported[key]++ < 3)
       J().s("t", "viol").s("key", key).s("desc", desc + " [case " + c.id() + "]").raw("replay", J().s("harness", sp.harness).s("args", extra).s("single", c.id()).str()).emit();
   };
-  run_batch((long)mine.size(), [&](long k) { return sp.run(*mine[k]); }, sink, sp.alarm_s);
+  run_batch((long)mine.size(), [&](long k) { return sp.run(getcase(k)); }, sink, sp.alarm_s);
   std::vector<std::string> cl(classes.begin(), classes.end());
-  J().s("t", "cov").n("evaluations", evals).n("cases_total", (long)all.size()).n("violating_cases", nviol).emit();
+  J().s("t", "cov").n("evaluations", evals).n("cases_total", (long)total).n("violating_cases", nviol).emit();
   J().s("t", "set").s("name", "classes").raw("items", jarrs(cl)).emit();
   J().s("t", "hist").s("name", "outcomes").raw("counts", jmap(outcomes)).emit();
   return 0;
